@@ -316,7 +316,7 @@ def open_findings():
     return {f['id']: f for f in json.load(open(p)) if f.get('status') == 'open'}
 
 
-KNOWN_ID = {'D11': 'D11', 'D12': 'D12', 'NL': 'D15-json-newline'}
+KNOWN_ID = {'D11': 'D11', 'D12': 'D12', 'NL': 'D16-json-newline'}
 
 
 _MODEL_LINES = {}      # case line -> model observation (filled by run / shrink)
@@ -543,7 +543,7 @@ def gen_edge(rng, n):
 
 def gen_known(rng, n):
     """dedicated stream for the open findings: '}}' right after a placeholder (D11), a value holding
-    the separator bytes (D12), a value holding a newline (D15)"""
+    the separator bytes (D12), a value holding a newline (D16)"""
     cases = []
     while len(cases) < n:
         kind = rng.choice(['D11', 'D11s', 'D12', 'NL'])
